@@ -17,9 +17,11 @@ from ..partition import MiniInterp, Opaque, FRESH
 
 LEVEL = "other"
 TECHNIQUE = "CFG ordering of the document/prefix brackets; effect table of the token loop by branch partition; evaluated table checks"
-CLAIM = ("to_sax emits exactly one startDocument/endDocument pair around everything, opens every prefix mapping before the first "
-         "token and closes the same mappings after the last; per token type the event(s) emitted are the right ones with the "
-         "same (namespace, local name) on start and end. Nesting therefore reduces to the balance of the walker's stream (C11).")
+CLAIM = ('to_sax emits exactly one startDocument/endDocument pair around everything, opens every prefix '
+         'mapping before the first token and closes the same mappings after the last; per token type the '
+         'event(s) emitted are the right ones with the same (namespace, local name) on start and end. Nesting '
+         "therefore reduces to the balance of the walker's stream (C11). Text buffered across tokens, if any, "
+         'is delivered after the loop.')
 NOT_DECIDED = "balance of the incoming stream (C11's traversal); equality of a tree rebuilt from the events."
 MODULES = ["treeadapters/sax.py", "constants.py"]
 REL = "treeadapters/sax.py"
